@@ -59,7 +59,8 @@ ASSUMPTIONS = ['client objects are plain attribute bags; the _ prefix rule '
                'is covered by C05']
 
 SOURCES = ('kw', 'tvar', 'client', 'mapping', 'ckw', 'cmap')
-FORMS = ('var', 'call', 'callexpr', 'varexprcall', 'entity', 'ifvar')
+FORMS = ('var', 'call', 'callexpr', 'varexprcall', 'entity', 'ifvar',
+         'exprlambda', 'exprcomp', 'exprgen')
 BINDERS = ('in', 'inb', 'with', 'withmap', 'withonly', 'let', 'if', 'try',
            'sub')
 SYNTAXES = ('dtml', 'ssi', 'epfs')
@@ -88,6 +89,14 @@ def lookup_nodes(form):
         return [['var', E('n()'), []]]
     if form == 'entity':
         return [['var', N('n'), [['html_quote', None]]]]
+    # expressions in which the probe name is free *and* the name of a
+    # lambda argument / comprehension variable
+    if form == 'exprlambda':
+        return [['var', E('(lambda n: n)(n)'), []]]
+    if form == 'exprcomp':
+        return [['var', E('[n for n in (n, n)][1]'), []]]
+    if form == 'exprgen':
+        return [['var', E("'+'.join(n for n in (n,)) + n"), []]]
     return [['if', [[N('n'), [['var', N('n'), []]]]], [T('F')]]]
 
 
@@ -102,6 +111,8 @@ def cases(tier):
                 for kind in ('plain', 'callable', 'template'):
                     for form in FORMS:
                         if form == 'varexprcall' and kind != 'callable':
+                            continue
+                        if form.startswith('expr') and kind != 'plain':
                             continue
                         idx += 1
                         yield {'fam': 'src', 'sources': list(sub),
